@@ -571,6 +571,7 @@ type c14ExitCase struct {
 	Trigger int    `json:"trigger"` // ordinal of the RPC at which the machine is killed
 	Phase   string `json:"phase"`
 	MC      bool   `json:"machine_combiners"`
+	Procs   int    `json:"procs,omitempty"` // pragma of the tasks: 0 none, n > 0 Procs(n) (also more than a machine has), -1 Exclusive
 }
 
 func c14ExitProgram(c c14ExitCase) *progen.Spec {
@@ -588,7 +589,14 @@ func c14ExitProgram(c c14ExitCase) *progen.Spec {
 	case "compile-fatal":
 		spec.PanicOnBuild = 2
 	}
-	spec.Nodes = append(spec.Nodes, src, progen.Node{Op: "reduce", In: []int{0}, Fn: &progen.Fn{}})
+	red := progen.Node{Op: "reduce", In: []int{0}, Fn: &progen.Fn{}}
+	switch {
+	case c.Procs > 0:
+		src.Procs, red.Procs = c.Procs, c.Procs
+	case c.Procs < 0:
+		src.Exclusive, red.Exclusive = true, true
+	}
+	spec.Nodes = append(spec.Nodes, src, red)
 	if err := progen.Annotate(spec); err != nil {
 		panic(err)
 	}
@@ -614,6 +622,7 @@ func c14RunExit(c c14ExitCase) (err error, fired bool) {
 		VerifSetRetryPolicy(oldRetry)
 	}()
 	sys := faultsys.New(2)
+	sys.KeepalivePeriod, sys.KeepaliveTimeout, sys.KeepaliveRpcTimeout = 200*time.Millisecond, 2*time.Second, time.Second
 	opts := []Option{Bigmachine(sys), Parallelism(4), MaxLoad(1.0)}
 	if c.MC {
 		opts = append(opts, MachineCombiners)
@@ -655,7 +664,9 @@ func c14RunExit(c c14ExitCase) (err error, fired bool) {
 		if runErr != nil {
 			return fmt.Errorf("failure-free run failed: %v", runErr), fired
 		}
-	case "run-fatal", "compile-fatal":
+	case "run-fatal":
+		// (compile-fatal panics in one construction only: if that machine is also considered lost,
+		// e.g. after a missed keepalive on a busy host, the run legitimately succeeds elsewhere)
 		if runErr == nil {
 			return fmt.Errorf("path %s: Run succeeded", c.Path), fired
 		}
@@ -692,6 +703,19 @@ func c14RunExit(c c14ExitCase) (err error, fired bool) {
 	if ms[0] == ms[1] {
 		return fmt.Errorf("two whole-machine requests were granted on the same machine"), fired
 	}
+	// both machines are now handed out in full: no further proc may be granted (no further machine can
+	// be started). A grant here means the manager's account of a machine is below zero, i.e. a task
+	// returned more procs than it was granted.
+	extrac, extraCancel := mgr.Offer(0, 1)
+	select {
+	case m := <-extrac:
+		if m == ms[0] || m == ms[1] {
+			return fmt.Errorf("exit path %q (run error: %v): machine %s is handed out in full (%d procs), yet one more proc was granted on it: a task returned more procs than it was granted", c.Path, firstLineOf(runErr), m.Addr, mgr.machprocs), fired
+		}
+		m.Done(1, nil) // a replacement machine that came up in the meantime
+	case <-time.After(500 * time.Millisecond):
+		extraCancel()
+	}
 	for _, m := range ms {
 		m.Done(mgr.machprocs, nil)
 	}
@@ -715,7 +739,7 @@ const c14Exit = "TestVerifC14ExitPaths"
 
 func TestVerifC14ExitPaths(t *testing.T) {
 	rec := vt.New("C14", "executor-exit-paths",
-		"fault enumeration over the exit paths of (*bigmachineExecutor).Run in real sessions on the test system (2 machines x 2 procs, parallelism limit reached): success; fatal user error; Func panicking when the worker compiles the invocation; machine killed at the k-th Worker.Compile / Worker.Run / Worker.CommitCombiner call (k = 0..3, before the call and after its reply), with and without machine combiners; oracle: after Run returns, whole-machine requests for every machine of the cluster must be grantable at the same time (no further machine can be started), i.e. every proc handed out was returned; non-trivial = the fault fired; distinct by scenario")
+		"fault enumeration over the exit paths of (*bigmachineExecutor).Run in real sessions on the test system (2 machines x 2 procs, parallelism limit reached): success; fatal user error; Func panicking when the worker compiles the invocation; machine killed at the k-th Worker.Compile / Worker.Run / Worker.CommitCombiner call (k = 0..3, before the call and after its reply), with and without machine combiners, and the same for tasks carrying Procs(2) (the whole machine), Procs(5) (more than a machine has) and Exclusive pragmas; oracle: after Run returns, whole-machine requests for every machine of the cluster must be grantable at the same time (no further machine can be started) and while they are outstanding not a single further proc may be granted on those machines, i.e. every task returned exactly the procs it was granted; non-trivial = the fault fired; distinct by scenario")
 	docs, only := vt.Replays(c14Exit)
 	for _, d := range docs {
 		var c c14ExitCase
@@ -744,6 +768,11 @@ func TestVerifC14ExitPaths(t *testing.T) {
 				}
 			}
 		}
+	}
+	// task pragmas: the whole machine, more procs than a machine has (clamped), exclusive
+	for _, procs := range []int{2, 5, -1} {
+		cases = append(cases, c14ExitCase{Path: "success", Procs: procs}, c14ExitCase{Path: "run-fatal", Procs: procs},
+			c14ExitCase{Path: "run-lost", Trigger: 0, Phase: "after", Procs: procs}, c14ExitCase{Path: "success", Procs: procs, MC: true})
 	}
 	seen := map[string]bool{}
 	for i, c := range cases {
